@@ -10,6 +10,12 @@ CHECKS = [
         "technique": "Lean 4 proof (induction over the buffered drain loop; varint round-trip) + model/implementation correspondence",
     },
 ]
+CHECKS.append({
+    "property_id": "C02",
+    "text": "Lean 4 theorems c02_plain (strict minimal-varint spec decoder inverts Plain.write for every packet list), c02_noise / c02_noise_total / c02_nonce_chain (for every AEAD instance, nonce and batch sequence the writes decode under strictly consecutive nonces from the session start; out-of-range batches are refused whole), c02_write_explicit. Tie: every registered message class, boundary payload sizes and long sessions sent through the real APIConnection.send_messages; plaintext bytes decoded by the Lean spec decoder, noise frames opened by an independent ChaCha20-Poly1305 with the spec's nonce layout and compared with the Lean model's output byte-for-byte (symbolic twin).",
+    "note": "Trusted: Lean kernel + standard axioms; AEAD as an abstract structure (laws as hypotheses, never axioms); ChaCha20-Poly1305 (cryptography pkg), protobuf serialisation, api.proto text parser for ground-truth ids.",
+    "technique": "Lean 4 proof (round-trip of writer against an independent strict decoder, induction over batches/sessions) + model/implementation correspondence",
+})
 
 _claimed = {c["property_id"] for c in CHECKS}
 NOT_APPLICABLE = [
